@@ -6,13 +6,13 @@
   4.2 "legacy"; 3D-Systems SLA ASCII STL; ISO/IEC 19776-1 X3D XML encoding) — NOT from `coxeter/io.py`.
   No writer lives in this file; it shares with the model only the data types.
 
-  Text is `List Char` (a Python `str` is a sequence of code points).  A coordinate is an abstract
-  token: the characters Python's `str()` printed; the readers never interpret it (the harness checks
-  `float(tok) == coordinate` on the real files).  Integers are read by `parseNat`/`parseInt`.
+  Text is `List Char` (a Python `str` is a sequence of code points).  The format readers keep a coordinate as
+  the token that stands in the file; what NUMBER a token is, and which IEEE double a correctly rounding
+  reader returns for it, is the last section (`tokSignMag`, `roundsMag`, `readsAsB`: the per-run certificate
+  `float(tok) == coordinate`, decided exactly over ℚ).  Integers are read by `parseNat`/`parseInt`.
 
-  XML formats: the readers work on the element tree `Xml`; the serialisation tree ↔ text is NOT
-  modelled here (the harness compares the model's serialisation byte-for-byte with the real file and
-  re-parses the real file with an XML / HTML parser).
+  XML formats: the readers here work on the element tree `Xml`; the parser text → tree (`parseXml`,
+  `parseHtmlDoc`) is in Lemmas/MeshIOXmlText.lean together with the proof that it inverts the serialiser.
 -/
 namespace MeshIO
 
@@ -346,5 +346,106 @@ def readHtml (doc : Xml) : Option Mesh :=
   if htmlName doc.tag cs!"html" then
     (child htmlName cs!"body" doc).bind fun b => (child htmlName cs!"x3d" b).bind readX3dLenient
   else none
+
+/-! ### decimal coordinate tokens and their value
+
+  The number syntax every reader of the seven formats accepts (C `strtod` / `scanf("%lf")` restricted to decimal
+  notation, which is also what Python's `float()` and an XML `SFFloat` / `MFVec3f` accept):
+
+      token    := sign? mantissa exponent?
+      sign     := '+' | '-'
+      mantissa := digits | digits '.' | digits '.' digits | '.' digits
+      exponent := ('e' | 'E') sign? digits
+
+  `inf`, `nan`, hexadecimal floats, digit separators and surrounding blanks are NOT numbers of any of the formats.
+  The value is the exact rational `± (digits of the mantissa) · 10^(exponent − number of fraction digits)`; the sign
+  is kept apart so that `-0.0` is distinguished from `0.0`. -/
+
+/-- characters before the first one satisfying `p`, and what follows it (`none`: there is none) -/
+def cutAt (p : Char → Bool) : Str → Str × Option Str
+  | [] => ([], none)
+  | c :: cs => if p c then ([], some cs) else ((cutAt p cs).1.cons c, (cutAt p cs).2)
+
+def isExpChar (c : Char) : Bool := c == 'e' || c == 'E'
+def isDot (c : Char) : Bool := c == '.'
+
+/-- optional sign: (is negative, rest) -/
+def splitSign : Str → Bool × Str
+  | '-' :: r => (true, r)
+  | '+' :: r => (false, r)
+  | r => (false, r)
+
+def digitRun (ds : Str) : Bool := ds.all Char.isDigit
+/-- value of a run of decimal digits (most significant first) -/
+def digitsNat (ds : Str) : Nat := Nat.ofDigitChars 10 ds 0
+
+/-- mantissa → (integer digits, fraction digits); at least one digit in total -/
+def parseMant (s : Str) : Option (Str × Str) :=
+  match cutAt isDot s with
+  | (i, none) => if !i.isEmpty && digitRun i then some (i, []) else none
+  | (i, some f) => if !(i.isEmpty && f.isEmpty) && digitRun i && digitRun f then some (i, f) else none
+
+/-- exponent part (after the `e`) → its value; no exponent part = 0 -/
+def parseExp : Option Str → Option Int
+  | none => some 0
+  | some e =>
+    if !(splitSign e).2.isEmpty && digitRun (splitSign e).2 then
+      some (if (splitSign e).1 then -(digitsNat (splitSign e).2 : Int) else (digitsNat (splitSign e).2 : Int))
+    else none
+
+/-- `n · 10^e` exactly -/
+def scale10 (n : Nat) (e : Int) : Rat :=
+  if 0 ≤ e then ((n * 10 ^ e.toNat : Nat) : Rat) else mkRat (n : Int) (10 ^ (-e).toNat)
+
+/-- sign and exact magnitude of a coordinate token (`none`: not a number of the formats) -/
+def tokSignMag (t : Tok) : Option (Bool × Rat) :=
+  (parseMant (cutAt isExpChar (splitSign t).2).1).bind fun m =>
+    (parseExp (cutAt isExpChar (splitSign t).2).2).map fun e =>
+      ((splitSign t).1, scale10 (digitsNat (m.1 ++ m.2)) (e - (m.2.length : Int)))
+
+/-- exact value of a coordinate token -/
+def tokValue (t : Tok) : Option Rat :=
+  (tokSignMag t).map fun r => if r.1 then -r.2 else r.2
+
+/-! #### IEEE-754 binary64 and correct rounding
+
+  A double is given by its 64 bits (as a number < 2^64): sign bit, 11 exponent bits, 52 fraction bits.  The low 63 bits
+  `m` order the non-negative doubles like their values; `magNum m / 2^1074` is the value (for `m = 0x7FF0…0`, the
+  pattern of +inf, it is 2^1024: the threshold of rounding to infinity).  A reader that converts a decimal token
+  correctly (round to nearest, ties to even: what `strtod` and Python's `float` do) returns the double `x` for the
+  rational `q` iff `q` lies between the midpoints to the two neighbours of `x` (a midpoint itself only if the last
+  fraction bit of `x` is 0). -/
+
+def magNum (m : Nat) : Nat :=
+  if m / 2 ^ 52 = 0 then m % 2 ^ 52 else (2 ^ 52 + m % 2 ^ 52) * 2 ^ (m / 2 ^ 52 - 1)
+
+def magValue (m : Nat) : Rat := mkRat (magNum m : Int) (2 ^ 1074)
+
+/-- the finite non-negative double with bit pattern `m` is the correctly rounded value of `q ≥ 0` -/
+def roundsMag (q : Rat) (m : Nat) : Bool :=
+  decide (m < 2047 * 2 ^ 52) &&
+  (decide (q < (magValue m + magValue (m + 1)) / 2) ||
+    (decide (q = (magValue m + magValue (m + 1)) / 2) && m % 2 == 0)) &&
+  (m == 0 ||
+    (decide ((magValue (m - 1) + magValue m) / 2 < q) ||
+      (decide (q = (magValue (m - 1) + magValue m) / 2) && m % 2 == 0)))
+
+/-- the token, read by a correctly rounding reader, is exactly the double with these 64 bits
+    (sign of zero included) -/
+def readsAsB (t : Tok) (bits : Nat) : Bool :=
+  match tokSignMag t with
+  | none => false
+  | some r => decide (bits < 2 ^ 64) && (bits / 2 ^ 63 == (if r.1 then 1 else 0)) && roundsMag r.2 (bits % 2 ^ 63)
+
+/-- vertex coordinates as doubles (64-bit patterns) -/
+abbrev V3B := Nat × Nat × Nat
+
+/-- every coordinate token of the mesh reads as the corresponding double: the per-run certificate
+    (`float(token) == coordinate`, decided exactly over ℚ by the driver) -/
+def coordsReadAs : List V3T → List V3B → Bool
+  | [], [] => true
+  | v :: vs, x :: xs =>
+    readsAsB v.1 x.1 && readsAsB v.2.1 x.2.1 && readsAsB v.2.2 x.2.2 && coordsReadAs vs xs
+  | _, _ => false
 
 end MeshIO
